@@ -64,7 +64,8 @@ def build_program_case(rng, n_blocks=None, allow=None, main_modes=('usr', 'sys',
     G.set_data(devices[0], 0, low)
     G.set_data(devices[1], 0, code)
     G.set_data(devices[2], 0x400, bytes(rng.getrandbits(8) for _ in range(0x100)))
-    regs = P.main_state(rng, cfg, mode, thumb, te, extra_sys)
+    e_main, ee = int(rng.random() < 0.25), int(rng.random() < 0.3)      # big-endian data in the main program / in the handlers
+    regs = P.main_state(rng, cfg, mode, thumb, te, extra_sys, e=e_main, ee=ee)
     if extra_sys is None and mode == 'usr' and rng.random() < 0.5:
         # MPU on: the handler stacks are privileged-only, the User program keeps access to its own stack, data and code.  A return
         # sequence must therefore finish every access to the handler stack BEFORE it drops to User mode
@@ -73,7 +74,7 @@ def build_program_case(rng, n_blocks=None, allow=None, main_modes=('usr', 'sys',
         mpu[5] = (1 | 8 << 1, G.STACKS + 0x200, 1 << 8)
         mpu[6] = (1 | 9 << 1, G.STACKS + 0x400, 1 << 8)
         regs['sys'].update(G.mpu_sys(mpu))
-        regs['sys']['sctlr'] = G.sctlr_value(m=1, a=0, u=1, te=te, v=0, br=1)
+        regs['sys']['sctlr'] = G.sctlr_value(m=1, a=0, u=1, te=te, v=0, br=1, ee=ee)
     if cfg['have_security_ext'] and rng.random() < 0.5:
         # Security Extensions routing: IRQ and/or FIQ are taken to Monitor mode (handlers behind MVBAR), from a Secure or Non-secure main program
         scr = rng.choice([2, 4, 6]) | rng.getrandbits(1) | rng.getrandbits(2) << 4
@@ -82,7 +83,7 @@ def build_program_case(rng, n_blocks=None, allow=None, main_modes=('usr', 'sys',
         regs['sys']['scr'] = scr
     core = {'config': cfg, 'devices': devices, 'regs': regs, 'done_pc': G.CODE + len(code) - (2 if thumb else 4)}
     meta = {'thumb': thumb, 'te': te, 'mode': mode, 'returns': rets, 'main_lo': G.CODE, 'main_hi': G.CODE + len(code),
-            'handlers': {k: list(v) for k, v in hinfo.items()}}
+            'handlers': {k: list(v) for k, v in hinfo.items()}, 'e': e_main, 'ee': ee}
     return core, meta
 
 
@@ -238,7 +239,7 @@ def gen_psr_walk(rng):
     modes = G.legal_modes(cfg)
     mode = rng.choice(modes)
     devices = G.std_devices(high=False)
-    cpsr = G.random_cpsr(rng, cfg, mode=mode, thumb=thumb)
+    cpsr = G.random_cpsr(rng, cfg, mode=mode, thumb=thumb, e=None)
     scr = (rng.getrandbits(6) & 0x31) if sec else 0
     if mode == 'hyp':
         scr |= 1
@@ -364,7 +365,7 @@ def run_psr_walk(case):
             # exception return with an arbitrary saved PSR: CPSRWriteByInstr(SPSR, '1111', TRUE) then BranchWritePC(LR - imm)
             if cur in (0x10, 0x1f, 0x1a):
                 continue
-            v = op['v'] & ~(1 << 24) & ~(1 << 9)               # J = 0 (no Jazelle/ThumbEE), E = 0 (fetch honours E in this code base)
+            v = op['v'] & ~(1 << 24)                            # J = 0 (no Jazelle/ThumbEE)
             if not (v >> 5) & 1:
                 v &= ~0x0600FC00                                 # IT must be zero when returning to ARM state
             setattr(r, 'spsr_' + SP[cur], v)
@@ -439,7 +440,7 @@ def run_psr_walk(case):
                 want, m2 = pre_sp[SP[cur]], 0xFFFFFFFF
             else:
                 want = pre_cpsr & CW.MRS_CPSR_MASK
-                m2 = 0xFFFFFFFF if cur != 0x10 else 0xF80F0200 | 0xFF0000       # User mode: M, A, I, F UNKNOWN
+                m2 = 0xFFFFFFFF if cur != 0x10 else 0xF8FF0000       # User mode: bits <9:6> (E, A, I, F) and <4:0> are UNKNOWN
             if (got ^ want) & m2:
                 cls = 'privileged_read_loses_bits' if cur != 0x10 and not (got & ~want) else 'wrong_value'
                 if not any(v['cls'] == cls and v['oracle'] == 'psr.mrs' for v in b.violations):
@@ -462,9 +463,7 @@ def run_psr_walk(case):
         flds = ''.join(c for c, msk in (('M', 0x1F), ('I', 0x80), ('F', 0x40), ('A', 0x100), ('E', 0x200), ('f', 0xF8000000), ('g', 0xF0000)) if changed & msk)
         b.cover.add('psr|%s|%x|%d|%s|%s' % (label, cur, secure, flds, 'T' if thumb else 'A'))
         b.count('probe.op-' + k)
-        # keep the machine executable: data endianness back to little-endian, no IT state left over from a restored PSR
-        if r.cpsr.e:
-            r.cpsr.e = 0
+        # keep the machine executable: no IT state left over from a restored PSR (E may stay: fetches are little-endian regardless)
         if k == 'ret':
             r.cpsr.it = 0
             if r.cpsr.j:
